@@ -17,6 +17,10 @@ outcome of the first failing step, `.ok` when every step passes. The order is th
 Rust statements, so "a panic step precedes the validation that would have rejected the shape"
 is visible in the model.
 
+This is the model of the tree with fixes C15-1 (`verify_circuit`: list lengths and `checked_add`
+before the challenge slice) and C15-3 (`open_input`: matrix heights compared with
+`log_global_max_height`) applied; the three steps they change are marked `fix C15-n`.
+
 Transcribed from (line numbers of the tree the model was written against):
   recursion/src/types/proof.rs            `ProofTargets::new`, `BatchProofTargets::new`
   recursion/src/pcs/fri/targets.rs:268-282 `CommitPhaseProofStepTargets::new`
@@ -166,14 +170,22 @@ def friChallengeChecks (e : Env) (f : FriShape) : List Check :=
   [ must (min f.commitCaps.length f.powWitnesses == 0 || e.commitPowBits ≤ e.valBits),
     must (e.queryPowBits ≤ e.valBits) ]
 
+/-- log₂ height of the tallest matrix of a commitment round on the LDE domain (0 if none). -/
+def batchHeight (e : Env) (r : Round) : Nat :=
+  r.mats.foldl (fun a m => max a (m.1 + e.logBlowup)) 0
+
 def openInputChecks (e : Env) (f : FriShape) (rounds : List Round) (q : QueryShape) : List Check :=
   let lmh := logMaxHeight e f
-  -- `precompute_evaluation_points`: `log_global_max_height - height` for every matrix height
-  (rounds.flatMap fun r => r.mats.map fun m => partialStep (m.1 + e.logBlowup ≤ lmh))
+  -- fix C15-3: every matrix height is compared with `log_global_max_height` (explicit
+  -- `InvalidProofShape`) before `precompute_evaluation_points` subtracts it
+  (rounds.flatMap fun r => r.mats.map fun m => must (m.1 + e.logBlowup ≤ lmh))
   ++ [ must (rounds.length == q.inputProof.length) ]
   ++ ((rounds.zip q.inputProof).flatMap fun (r, b) =>
         (if e.mmcs then
-          [ must (r.mats.length == b.length) ] ++ capChecks r.cap lmh
+          -- `log_global_max_height.checked_sub(batch_log_max_height)`; the batch is opened with the
+          -- upper `batch_log_max_height` index bits only
+          [ must (batchHeight e r ≤ lmh), must (r.mats.length == b.length) ]
+          ++ capChecks r.cap (batchHeight e r)
         else [])
         ++ [ must (r.mats.length == b.length) ]
         ++ ((r.mats.zip b).map fun (m, row) => must (m.2.all (· == row))))
@@ -192,14 +204,20 @@ def commitPhaseChecks (e : Env) (f : FriShape) : List Check :=
 def friVerifyChecks (e : Env) (f : FriShape) (rounds : List Round) : List Check :=
   let las := f.logArities
   let lmh := logMaxHeight e f
-  [ -- `&challenges[1..1 + num_betas]` where `challenges` has `1 + min(commits, pow)` entries
-    partialStep (f.commitCaps.length ≤ f.powWitnesses),
-    -- `total_log_reduction + log_final_poly_len + log_blowup`
-    partialStep (lmh < 2 ^ e.wordBits),
+  [ -- fix C15-1: `challenges` has `1 + min(commits, pow)` entries; `verify_circuit` now returns
+    -- `InvalidProofShape` unless `challenges.len() ≥ 1 + commits` and `pow == commits`
+    -- (together: `commits == pow`) before it takes `&challenges[1..1 + num_betas]`
+    must (f.commitCaps.length == f.powWitnesses),
+    -- `log_arities.iter().sum()` is still an unchecked `usize` sum
+    partialStep (sum las < 2 ^ e.wordBits),
+    -- fix C15-1: `checked_add` of `log_final_poly_len` and `log_blowup`
+    must (lmh < 2 ^ e.wordBits),
     must (lmh ≤ e.valBits),
     -- `verify_fri_circuit` shape validation
     must (f.commitCaps.length == f.powWitnesses),
     must (las.length == f.commitCaps.length),
+    -- `1 <= log_arity` for every phase (native `checked_log_arity`)
+    must (las.all (· != 0)),
     must (f.queries.length != 0),
     must (f.commitCaps.length != 0) ]
   ++ (f.queries.map fun q => must (q.steps == las))
@@ -232,7 +250,8 @@ def validateUniShape (e : Env) (s : UniShape) : List Check :=
     must (s.quotientChunks.all (· == e.dim)),
     must (match s.random with | some r => r == e.dim | none => true) ]
 
-def uniChecks (e : Env) (s : UniShape) : List Check :=
+/-- Everything the uni-STARK builder does before it hands the opening proof to the PCS. -/
+def uniPrefix (e : Env) (s : UniShape) : List Check :=
   allocFri e s.fri
   ++ [ -- `1 << degree_bits`
        partialStep (s.degreeBits < e.wordBits),
@@ -244,7 +263,9 @@ def uniChecks (e : Env) (s : UniShape) : List Check :=
   ++ friChallengeChecks e s.fri
   ++ [ must (s.random.isNone && s.randomCap.isNone) ]   -- non-ZK PCS
   ++ validateUniShape e s
-  ++ friVerifyChecks e s.fri (uniRounds e s)
+
+def uniChecks (e : Env) (s : UniShape) : List Check :=
+  uniPrefix e s ++ friVerifyChecks e s.fri (uniRounds e s)
 
 def verifyUni (e : Env) (s : UniShape) : Out := run (uniChecks e s)
 
